@@ -8,9 +8,14 @@ namespace NitroVerif.RefCount
 theorem inv_setT_flag {cfg : Cfg} {st : St} {i : Nat} {pc pc' : PC} {b : Bool} (h : Inv cfg st)
     (hi : st.ths[i]? = some pc) (hok : PCok st pc')
     (hdec : ∀ s, uDec s pc' = uDec s pc) (hret : ∀ s, uRet s pc' = uRet s pc)
+    (hret2 : ∀ s, uRet2 s pc' = uRet2 s pc)
     (hexcl : cnt uCrit (st.ths.set i pc') = if b then 1 else 0)
     (hresp : cfg.fixedGC = true → uResp pc' = 1) :
     Inv cfg (setT { st with flag := b } i pc') := by
+  have hc2 : ∀ s, cnt (uRet2 s) (st.ths.set i pc') = cnt (uRet2 s) st.ths := by
+    intro s
+    have e := cnt_set (uRet2 s) st.ths i pc pc' hi
+    rw [hret2] at e; omega
   constructor
   · intro s h1 h2
     have := h.count s h1 h2
@@ -22,14 +27,19 @@ theorem inv_setT_flag {cfg : Cfg} {st : St} {i : Nat} {pc pc' : PC} {b : Bool} (
     have := h.retire s h1 h2
     have e := cnt_set (uRet s) st.ths i pc pc' hi
     rw [hret] at e
-    show (getS st s).retired + cnt (uRet s) (st.ths.set i pc') = if (getS st s).refs = 0 then 1 else 0
+    show (getS st s).retired + cnt (uRet s) (st.ths.set i pc') + cnt (uRet2 s) (st.ths.set i pc') =
+      if (getS st s).refs = 0 then 1 else 0
+    rw [hc2]
     omega
   · intro j pcj hj
     rcases set_getElem?_cases hj with ⟨_, rfl⟩ | ⟨_, hj'⟩
     · exact PCok_mono rfl (fun _ _ a b => ⟨a, b⟩) hok
     · exact PCok_mono rfl (fun _ _ a b => ⟨a, b⟩) (h.pcs j pcj hj')
   · exact h.place
-  · exact h.live_iff
+  · intro s
+    show s ∈ st.live ↔ (1 ≤ s ∧ s ≤ st.snaps.length ∧ (getS st s).retired = 0 ∧
+      cnt (uRet2 s) (st.ths.set i pc') = 0)
+    rw [hc2]; exact h.live_iff s
   · exact h.dead_valid
   · exact h.gc_le
   · exact h.dead_sorted
@@ -47,7 +57,7 @@ theorem inv_setT_flag {cfg : Cfg} {st : St} {i : Nat} {pc pc' : PC} {b : Bool} (
 theorem inv_tryLockOk {cfg : Cfg} {st : St} {i : Nat} (h : Inv cfg st)
     (hi : st.ths[i]? = some .gcTryLock) (hf : st.flag = false) :
     Inv cfg (setT { st with flag := true } i .collectRead) := by
-  refine inv_setT_flag h hi trivial (fun _ => rfl) (fun _ => rfl) ?_ (fun _ => rfl)
+  refine inv_setT_flag h hi trivial (fun _ => rfl) (fun _ => rfl) (fun _ => rfl) ?_ (fun _ => rfl)
   have e := cnt_set uCrit st.ths i _ .collectRead hi
   have := h.excl
   simp [hf, uCrit] at e this ⊢
@@ -63,8 +73,9 @@ theorem inv_unlock {cfg : Cfg} {st : St} {i : Nat} (h : Inv cfg st)
     cases hfl : st.flag with
     | true => rfl
     | false => simp [hfl, uCrit] at hx hge; omega
-  refine inv_setT_flag h hi ?_ ?_ ?_ ?_ ?_
+  refine inv_setT_flag h hi ?_ ?_ ?_ ?_ ?_ ?_
   · cases cfg.fixedGC <;> exact trivial
+  · intro s; cases cfg.fixedGC <;> rfl
   · intro s; cases cfg.fixedGC <;> rfl
   · intro s; cases cfg.fixedGC <;> rfl
   · have e := cnt_set uCrit st.ths i _ (if cfg.fixedGC then PC.gcRecheck else PC.idle) hi
@@ -77,22 +88,85 @@ theorem inv_unlock {cfg : Cfg} {st : St} {i : Nat} (h : Inv cfg st)
     omega
   · intro hg; simp [hg, uResp]
 
-/-- `CLOSE_RETIRE`: the snapshot moves from the live list to the dead list -/
-theorem inv_closeRetire {cfg : Cfg} {st : St} {i s : Nat} (h : Inv cfg st)
+/-- `CLOSE_RETIRE`: `snapshots.Delete` — the snapshot leaves the live list -/
+theorem inv_closeRetire1 {cfg : Cfg} {st : St} {i s : Nat} (h : Inv cfg st)
     (hi : st.ths[i]? = some (.closeRetire s)) :
+    Inv cfg (setT { st with live := st.live.erase s } i (.closeRetire2 s)) := by
+  obtain ⟨h1, h2⟩ := h.pcs i _ hi
+  have hu : ∀ s', uRet s' (.closeRetire s) = uRet2 s' (.closeRetire2 s) := fun _ => rfl
+  have hu2 : ∀ s', uRet2 s' (.closeRetire s) = 0 := fun _ => rfl
+  have hu1 : ∀ s', uRet s' (.closeRetire2 s) = 0 := fun _ => rfl
+  constructor
+  · intro s' h1' h2'
+    have := h.count s' h1' h2'
+    have e := cnt_set (uDec s') st.ths i _ (.closeRetire2 s) hi
+    simp only [uDec] at e
+    show (getS st s').refs = ((getS st s').held : Int) + (cnt (uDec s') (st.ths.set i (.closeRetire2 s)) : Int)
+    omega
+  · intro s' h1' h2'
+    have := h.retire s' h1' h2'
+    have e1 := cnt_set (uRet s') st.ths i _ (.closeRetire2 s) hi
+    have e2 := cnt_set (uRet2 s') st.ths i _ (.closeRetire2 s) hi
+    rw [hu1] at e1; rw [hu2, ← hu] at e2
+    show (getS st s').retired + cnt (uRet s') (st.ths.set i (.closeRetire2 s)) +
+      cnt (uRet2 s') (st.ths.set i (.closeRetire2 s)) = if (getS st s').refs = 0 then 1 else 0
+    omega
+  · intro j pcj hj
+    rcases set_getElem?_cases hj with ⟨_, rfl⟩ | ⟨_, hj'⟩
+    · exact ⟨h1, h2⟩
+    · exact PCok_mono rfl (fun _ _ a b => ⟨a, b⟩) (h.pcs j pcj hj')
+  · exact h.place
+  · intro s'
+    show s' ∈ st.live.erase s ↔ (1 ≤ s' ∧ s' ≤ st.snaps.length ∧ (getS st s').retired = 0 ∧
+      cnt (uRet2 s') (st.ths.set i (.closeRetire2 s)) = 0)
+    rw [mem_erase_sorted h.live_sorted]
+    have hlv := h.live_iff s'
+    have e2 := cnt_set (uRet2 s') st.ths i _ (.closeRetire2 s) hi
+    rw [hu2] at e2
+    by_cases e' : s' = s
+    · subst e'
+      simp only [uRet2, if_true] at e2
+      constructor
+      · intro hx; exact absurd rfl hx.1
+      · intro hx; omega
+    · have : uRet2 s' (.closeRetire2 s) = 0 := by simp [uRet2]; omega
+      rw [this] at e2
+      have e3 : cnt (uRet2 s') (st.ths.set i (.closeRetire2 s)) = cnt (uRet2 s') st.ths := by omega
+      rw [e3]
+      simp only [ne_eq, e', not_false_eq_true, true_and]; exact hlv
+  · exact h.dead_valid
+  · exact h.gc_le
+  · exact h.dead_sorted
+  · exact pairwise_erase h.live_sorted s
+  · exact h.sent
+  · have := h.excl
+    have e := cnt_set uCrit st.ths i _ (.closeRetire2 s) hi
+    simp only [uCrit] at e
+    show cnt uCrit (st.ths.set i (.closeRetire2 s)) = if st.flag then 1 else 0
+    omega
+  · intro hg hm
+    have := h.resp hg hm
+    have e := cnt_set uResp st.ths i _ (.closeRetire2 s) hi
+    simp only [uResp] at e
+    show 1 ≤ cnt uResp (st.ths.set i (.closeRetire2 s))
+    omega
+
+/-- `CLOSE_RETIRE2`: `gcsnapshots.Insert` — the snapshot enters the dead list -/
+theorem inv_closeRetire2 {cfg : Cfg} {st : St} {i s : Nat} (h : Inv cfg st)
+    (hi : st.ths[i]? = some (.closeRetire2 s)) :
     Inv cfg (setT { setS st s { getS st s with retired := (getS st s).retired + 1 } with
-                      live := st.live.erase s, dead := dinsert s st.dead } i .closeGC) := by
+                      dead := dinsert s st.dead } i .closeGC) := by
   obtain ⟨h1, h2⟩ := h.pcs i _ hi
   have hr := h.retire s h1 h2
-  have hpos : 1 ≤ cnt (uRet s) st.ths := by
-    have := cnt_ge (uRet s) st.ths i _ hi; simpa [uRet] using this
+  have hpos : 1 ≤ cnt (uRet2 s) st.ths := by
+    have := cnt_ge (uRet2 s) st.ths i _ hi; simpa [uRet2] using this
   have hz : (getS st s).refs = 0 := by
     by_cases e : (getS st s).refs = 0
     · exact e
     · simp only [e, if_false] at hr; omega
   simp only [hz, if_true] at hr
   have hr0 : (getS st s).retired = 0 := by omega
-  have hc1 : cnt (uRet s) st.ths = 1 := by omega
+  have hc1 : cnt (uRet2 s) st.ths = 1 := by omega
   have hpl := h.place s h1 h2
   rw [hr0] at hpl
   have hnot : ¬ (s ∈ st.dead ∨ s ≤ st.lastGCSn) := by
@@ -102,7 +176,7 @@ theorem inv_closeRetire {cfg : Cfg} {st : St} {i s : Nat} (h : Inv cfg st)
     have : ¬ s ≤ st.lastGCSn := fun a => hnot (Or.inr a)
     omega
   generalize hst' : (setT { setS st s { getS st s with retired := (getS st s).retired + 1 } with
-                      live := st.live.erase s, dead := dinsert s st.dead } i .closeGC) = st'
+                      dead := dinsert s st.dead } i .closeGC) = st'
   have hlen : st'.snaps.length = st.snaps.length := by subst hst'; simp [setT, setS]
   have hget : ∀ s', getS st' s' =
       if s = s' then { getS st s with retired := (getS st s).retired + 1 } else getS st s' := by
@@ -111,7 +185,7 @@ theorem inv_closeRetire {cfg : Cfg} {st : St} {i s : Nat} (h : Inv cfg st)
     exact snapAt_setAt _ _ _ _ h1 h2
   have hths : st'.ths = st.ths.set i .closeGC := by subst hst'; rfl
   have hdead : st'.dead = dinsert s st.dead := by subst hst'; rfl
-  have hlive : st'.live = st.live.erase s := by subst hst'; rfl
+  have hlive : st'.live = st.live := by subst hst'; rfl
   have hL : st'.lastGCSn = st.lastGCSn := by subst hst'; rfl
   have hsent : st'.sent = st.sent := by subst hst'; rfl
   have hflag : st'.flag = st.flag := by subst hst'; rfl
@@ -128,10 +202,12 @@ theorem inv_closeRetire {cfg : Cfg} {st : St} {i s : Nat} (h : Inv cfg st)
     rw [hget, hths]
     have := h.retire s' h1' (by omega)
     have e := cnt_set (uRet s') st.ths i _ .closeGC hi
+    have e2 := cnt_set (uRet2 s') st.ths i _ .closeGC hi
     simp only [uRet] at e
+    simp only [uRet2] at e2
     by_cases e' : s = s'
-    · subst e'; simp only [if_true, hz]; simp at e; omega
-    · simp only [e', if_false] at e ⊢; omega
+    · subst e'; simp only [if_true, hz]; simp at e2; omega
+    · simp only [e', if_false] at e2 ⊢; omega
   · intro j pcj hj
     rw [hths] at hj
     rcases set_getElem?_cases hj with ⟨_, rfl⟩ | ⟨_, hj'⟩
@@ -148,12 +224,20 @@ theorem inv_closeRetire {cfg : Cfg} {st : St} {i s : Nat} (h : Inv cfg st)
     · have e'' : ¬ s' = s := fun a => e' a.symm
       simp only [e', e'', if_false, false_or]; exact this
   · intro s'
-    rw [hget, hlive, hlen, mem_erase_sorted h.live_sorted]
+    rw [hget, hlive, hlen, hths]
     have := h.live_iff s'
+    have e2 := cnt_set (uRet2 s') st.ths i _ .closeGC hi
+    simp only [uRet2] at e2
     by_cases e' : s = s'
-    · subst e'; simp
-    · have e'' : s' ≠ s := fun a => e' a.symm
-      simp only [e', if_false, e'', ne_eq, not_false_eq_true, true_and]; exact this
+    · subst e'
+      simp only [if_true]
+      rw [this]
+      constructor
+      · intro hx; omega
+      · intro hx; have := hx.2.2.1; simp at this
+    · simp only [e', if_false] at e2 ⊢
+      have e3 : cnt (uRet2 s') (st.ths.set i .closeGC) = cnt (uRet2 s') st.ths := by omega
+      rw [e3]; exact this
   · intro s' hs'
     rw [hdead, mem_dinsert] at hs'
     rw [hlen, hL]
@@ -162,7 +246,7 @@ theorem inv_closeRetire {cfg : Cfg} {st : St} {i s : Nat} (h : Inv cfg st)
     · exact h.dead_valid s' hs'
   · rw [hlen, hL]; exact h.gc_le
   · rw [hdead]; exact pairwise_dinsert s _ h.dead_sorted
-  · rw [hlive]; exact pairwise_erase h.live_sorted s
+  · rw [hlive]; exact h.live_sorted
   · rw [hsent, hL]; exact h.sent
   · rw [hths, hflag]
     have := h.excl
@@ -193,8 +277,10 @@ theorem inv_collectSend {cfg : Cfg} {st : St} {i s : Nat} (h : Inv cfg st)
     have := h.retire s' h1' h2'
     have e := cnt_set (uRet s') st.ths i _ .collectRead hi
     simp only [uRet] at e
-    show (getS st s').retired + cnt (uRet s') (st.ths.set i .collectRead) =
-      if (getS st s').refs = 0 then 1 else 0
+    have e2 := cnt_set (uRet2 s') st.ths i _ .collectRead hi
+    simp only [uRet2] at e2
+    show (getS st s').retired + cnt (uRet s') (st.ths.set i .collectRead) +
+      cnt (uRet2 s') (st.ths.set i .collectRead) = if (getS st s').refs = 0 then 1 else 0
     omega
   · intro j pcj hj
     rcases set_getElem?_cases hj with ⟨_, rfl⟩ | ⟨hne, hj'⟩
@@ -217,7 +303,13 @@ theorem inv_collectSend {cfg : Cfg} {st : St} {i s : Nat} (h : Inv cfg st)
     · have e2 : (s' ≤ s) ↔ (s' ≤ st.lastGCSn) := by
         constructor <;> intro <;> omega
       rw [e2, this]; simp [e]
-  · exact h.live_iff
+  · intro s'
+    have e2 := cnt_set (uRet2 s') st.ths i _ .collectRead hi
+    simp only [uRet2] at e2
+    have e3 : cnt (uRet2 s') (st.ths.set i .collectRead) = cnt (uRet2 s') st.ths := by omega
+    show s' ∈ st.live ↔ (1 ≤ s' ∧ s' ≤ st.snaps.length ∧ (getS st s').retired = 0 ∧
+      cnt (uRet2 s') (st.ths.set i .collectRead) = 0)
+    rw [e3]; exact h.live_iff s'
   · intro s' hs'
     show 1 ≤ s' ∧ s' ≤ st.snaps.length ∧ s < s'
     have hs'' : s' ∈ st.dead.erase s := hs'
